@@ -912,34 +912,42 @@ theorem cps_countP_inval (id : Nat) (l : List Nat) :
     obtain ⟨i, _, rfl⟩ := List.mem_map.1 hev
     rfl
 
-/-- `processLaunchKernelReq` keeps the account of the shared counter -/
-theorem CpsCacheInv.launch (e : CpSEnv) (h : CpsCacheInv e) (hf : e.s.c.fault = none) (id : Nat) (rest : List SIn) :
-    CpsCacheInv (e.withS (e.s.launch id rest).1) := by
+/-- `invalidateL1CachesBeforeKernel` keeps the account of the shared counter -/
+theorem CpsCacheInv.launchGo (e : CpSEnv) (h : CpsCacheInv e) (hf : e.s.c.fault = none) (id : Nat) (rest : List SIn) :
+    CpsCacheInv (e.withS (e.s.launchGo id rest).1) := by
   have hk : ∀ t : CpS, CpsCacheInv (e.withS t) → CpsCacheInv (e.withS (t.kstart id rest)) := by
     intro t ht
     refine ht.of_log [.kstart id] rfl rfl rfl rfl rfl rfl (by simp [SEv.isCacheAsk]) (by simp [SEv.isCacheAck])
       (by simp [SEv.isResetDrop]) ?_
     intro ev hev; simp at hev; subst hev; rfl
+  unfold CpS.launchGo
+  split
+  · exact hk e.s h
+  · split
+    · exact hk e.s h
+    · obtain ⟨k, hkl, a1, a2, a3, a4, a5, a6⟩ := CpS.foldl_invalidate_shape id e.s.ordInval e.s hf
+      obtain ⟨c1, c2, c3, c4⟩ := cps_countP_inval id (e.s.ordInval.take k)
+      have h1 : CpsCacheInv (e.withS (e.s.ordInval.foldl (CpS.invalidate id) e.s)) := by
+        refine h.ofAsk k _ a2 (by simp only [CpSEnv.withS_s]; rw [a1]; simp; omega) rfl a3 a4 a5 ?_ c2 c3 c4
+        rw [c1]; simp; omega
+      simp only
+      split
+      · exact h1
+      · split
+        · exact hk _ h1
+        · exact h1.of_eq rfl rfl rfl rfl rfl rfl
+
+/-- `processLaunchKernelReq` keeps the account of the shared counter -/
+theorem CpsCacheInv.launch (e : CpSEnv) (h : CpsCacheInv e) (hf : e.s.c.fault = none) (id : Nat) (rest : List SIn) :
+    CpsCacheInv (e.withS (e.s.launch id rest).1) := by
   unfold CpS.launch
   split
   · exact h
   · split
     · exact h
     · split
-      · exact hk e.s h
-      · split
-        · exact hk e.s h
-        · obtain ⟨k, hkl, a1, a2, a3, a4, a5, a6⟩ := CpS.foldl_invalidate_shape id e.s.ordInval e.s hf
-          obtain ⟨c1, c2, c3, c4⟩ := cps_countP_inval id (e.s.ordInval.take k)
-          have h1 : CpsCacheInv (e.withS (e.s.ordInval.foldl (CpS.invalidate id) e.s)) := by
-            refine h.ofAsk k _ a2 (by simp only [CpSEnv.withS_s]; rw [a1]; simp; omega) rfl a3 a4 a5 ?_ c2 c3 c4
-            rw [c1]; simp; omega
-          simp only
-          split
-          · exact h1
-          · split
-            · exact hk _ h1
-            · exact h1.of_eq rfl rfl rfl rfl rfl rfl
+      · exact h
+      · exact CpsCacheInv.launchGo e h hf id rest
 
 theorem CpsCacheInv.handle (e : CpSEnv) (h : CpsCacheInv e) : CpsCacheInv (e.withS e.s.handle.1) := by
   rcases CpS.handle_split e.s with h0 | ⟨m, rest, _, _, h0⟩ | ⟨id, rest, hf, _, _, h0⟩
@@ -1287,18 +1295,20 @@ def CpSEnv.allAnswered (e : CpSEnv) : Prop :=
 /-! ## 6. serialised runs: the projection that hides the shootdown's use of `numCacheACK` -/
 
 /-- the copy / flush environment seen through the shared component: the driver port without the
-    shootdown commands, ToDriver without the `ShootdownCompleteRsp`s, and — while `shootDownInProcess` —
-    the counter and the cache port as the flush path left them (0 / empty in a serialised run) -/
+    shootdown commands and launch requests, ToDriver without the `ShootdownCompleteRsp`s, and — while
+    `shootDownInProcess` or while a kernel-start invalidation is outstanding (`l1InvalidatedFor != nil`) —
+    the counter and the cache port as the flush path left them (0 / empty: the users of the counter are
+    serialised) -/
 def CpSEnv.proj (e : CpSEnv) : CpEnv :=
   { s := { e.s.c with
            drvIn := e.s.c.drvIn ++ e.s.later.filterMap SIn.req?
            drvOut := e.s.outEarlier.filterMap SOut.ans? ++ e.s.c.drvOut
-           numAck := if e.s.shoot then 0 else e.s.c.numAck
-           cacheOut := if e.s.shoot then [] else e.s.c.cacheOut
-           cacheIn := if e.s.shoot then [] else e.s.c.cacheIn }
+           numAck := if e.s.shoot || e.s.l1Inv.isSome then 0 else e.s.c.numAck
+           cacheOut := if e.s.shoot || e.s.l1Inv.isSome then [] else e.s.c.cacheOut
+           cacheIn := if e.s.shoot || e.s.l1Inv.isSome then [] else e.s.c.cacheIn }
     sent := e.sent
     atDma := e.atDma
-    atCaches := if e.s.shoot then [] else e.atCaches
+    atCaches := if e.s.shoot || e.s.l1Inv.isSome then [] else e.atCaches
     drained := e.drained.filterMap SOut.ans?
     dmaSeen := e.dmaSeen
     answered := e.answered }
@@ -1350,7 +1360,7 @@ theorem CpsSteps.inv {a b : CpEnv} (t : CpsSteps a b) (h : CpInvAll a) (hcap : a
     obtain ⟨j1, j2, j3, j4⟩ := t.inv i1 (by rw [i3, i4]; exact hcap) i2
     exact ⟨j1, j2, j3.trans i3, j4.trans i4⟩
 
-/-! ## 7. the environment serialises the two users of `numCacheACK` -/
+/-! ## 7. what the driver has outstanding -/
 
 def cpsIsFlushMsg (m : CpMsg) : Bool := decide (m.kind = .flush)
 
@@ -1368,18 +1378,6 @@ def CpSEnv.flushOut (e : CpSEnv) : Bool :=
 
 /-- the driver has sent a shootdown command whose `ShootdownCompleteRsp` it has not yet received -/
 def CpSEnv.shootOut (e : CpSEnv) : Bool := decide (e.drained.countP SOut.isDone < e.shootSent)
-
-/-- the runs covered by the invariant below: no kernel launch request is delivered (flush requests,
-    copies, shootdown commands, ticks and the components' moves in ANY order — since repair 0728adcb the
-    command processor itself keeps a flush and a shootdown apart) -/
-def CpSEnv.okOp (_e : CpSEnv) : SOp → Bool
-  | .launch => false
-  | _ => true
-
-/-- every move of the run respects the discipline in the state it is made in -/
-def CpSEnv.serial : CpSEnv → List SOp → Bool
-  | _, [] => true
-  | e, op :: rest => e.okOp op && (e.step op).1.serial rest
 
 /-! ### what the flush-path invariants say about the driver's view -/
 
@@ -1521,7 +1519,7 @@ theorem CpInvAll.cps_flush_idle {a : CpEnv} (h : CpInvAll a) (hlk : CpsLogKinds 
     apply List.eq_nil_of_length_eq_zero
     omega
 
-/-! ## 8. the invariant of serialised runs -/
+/-! ## 8. the invariant of all runs: the three users of `numCacheACK` are serialised by the component itself -/
 
 theorem CpsSteps.kinds {a b : CpEnv} (t : CpsSteps a b) (h : CpsLogKinds a) : CpsLogKinds b := by
   induction t with
@@ -1537,7 +1535,14 @@ def CpS.cfg (s : CpS) : CpSCfg :=
     capIn := s.c.capIn, capDrv := s.c.capDrv, capDma := s.c.capDma, capCache := s.c.capCache,
     capCU := s.capCU, capAT := s.capAT, capTLB := s.capTLB, nDisp := s.nDisp }
 
-/-- the shootdown's bookkeeping in a serialised run (configuration `g`, `g.Roomy`) -/
+/-- `l1InvalidatedFor != nil`: no shootdown is in process and the launch request is the head of the port -/
+def CpsLinv (e : CpSEnv) : Prop :=
+  ∀ id, e.s.l1Inv = some id → e.s.shoot = false ∧ e.s.c.drvIn = [] ∧ ∃ rest, e.s.later = .launch id :: rest
+
+theorem cpsLinv_of_none {e : CpSEnv} (h : e.s.l1Inv = none) : CpsLinv e := by
+  intro id hid; rw [h] at hid; cases hid
+
+/-- the shootdown's bookkeeping in every run (configuration `g`, `g.Roomy`) -/
 structure CpsSerRest (g : CpSCfg) (e : CpSEnv) : Prop where
   cache : CpsCacheInv e
   cfg : e.s.cfg = g
@@ -1556,14 +1561,40 @@ structure CpsSerRest (g : CpSCfg) (e : CpSEnv) : Prop where
   live : e.s.shoot = true → 0 < e.s.numCU + e.s.numAT + e.s.c.numAck + e.s.numTLB
   book : e.shootSent = e.s.later.countP SIn.isShoot + e.drained.countP SOut.isDone +
     e.s.outEarlier.countP SOut.isDone + e.s.dropDone + (if e.s.shoot then 1 else 0)
-  /-- no kernel launch request anywhere (the runs considered deliver none) -/
-  nol : e.s.l1Inv = none ∧ ∀ x ∈ e.s.later, x.isLaunch = false
+  /-- while a kernel-start invalidation is outstanding no shootdown is in process and the launch request
+      it belongs to is still the head of the driver port -/
+  linv : CpsLinv e
 
 structure CpsSerInv (g : CpSCfg) (e : CpSEnv) : Prop where
   inv : CpInvAll e.proj
   kinds : CpsLogKinds e.proj
   nf : e.s.c.fault = none
   rest : CpsSerRest g e
+
+theorem CpsSerRest.l1_none_of_shoot {g : CpSCfg} {e : CpSEnv} (h : CpsSerRest g e) (hs : e.s.shoot = true) :
+    e.s.l1Inv = none := by
+  cases hl : e.s.l1Inv with
+  | none => rfl
+  | some id => have := (h.linv id hl).1; rw [hs] at this; cases this
+
+theorem CpsSerRest.l1_none_of_drvIn {g : CpSCfg} {e : CpSEnv} (h : CpsSerRest g e) (m : CpMsg) (rest : List CpMsg)
+    (hd : e.s.c.drvIn = m :: rest) : e.s.l1Inv = none := by
+  cases hl : e.s.l1Inv with
+  | none => rfl
+  | some id => have := (h.linv id hl).2.1; rw [hd] at this; cases this
+
+theorem CpsSerRest.l1_none_of_later {g : CpSCfg} {e : CpSEnv} (h : CpsSerRest g e)
+    (hne : ∀ id rest, e.s.later ≠ .launch id :: rest) : e.s.l1Inv = none := by
+  cases hl : e.s.l1Inv with
+  | none => rfl
+  | some id => obtain ⟨rest, hr⟩ := (h.linv id hl).2.2; exact absurd hr (hne id rest)
+
+theorem CpsLinv.append {e e' : CpSEnv} (h : CpsLinv e) (x : List SIn) (h1 : e'.s.l1Inv = e.s.l1Inv)
+    (h2 : e'.s.shoot = e.s.shoot) (h3 : e'.s.c.drvIn = e.s.c.drvIn) (h4 : e'.s.later = e.s.later ++ x) : CpsLinv e' := by
+  intro id hid
+  rw [h1] at hid
+  obtain ⟨a, b, rest, c⟩ := h id hid
+  exact ⟨h2.trans a, h3.trans b, rest ++ x, by rw [h4, c]; rfl⟩
 
 theorem CpsSerInv.of_steps {g : CpSCfg} {e e' : CpSEnv} (h : CpsSerInv g e) (hr : g.Roomy) (t : CpsSteps e.proj e'.proj)
     (r : CpsSerRest g e') : CpsSerInv g e' := by
@@ -1577,17 +1608,19 @@ theorem CpsSerInv.of_steps {g : CpSCfg} {e e' : CpSEnv} (h : CpsSerInv g e) (hr 
 
 /-- with the counter at 0 and no shootdown in process the flush path's part of the cache port is empty -/
 theorem CpsSerInv.idle_of_zero {g : CpSCfg} {e : CpSEnv} (h : CpsSerInv g e) (hs : e.s.shoot = false)
-    (hn : e.s.c.numAck = 0) : e.s.c.cacheOut = [] ∧ e.atCaches = [] ∧ e.s.c.cacheIn = [] := by
+    (hl1 : e.s.l1Inv = none) (hn : e.s.c.numAck = 0) : e.s.c.cacheOut = [] ∧ e.atCaches = [] ∧ e.s.c.cacheIn = [] := by
   have := h.inv.flush.acks
-  simp only [CpSEnv.proj, hs, Bool.false_eq_true, if_false, hn] at this
+  simp only [CpSEnv.proj, hs, hl1, Option.isSome_none, Bool.or_false, Bool.false_eq_true, if_false, hn] at this
   refine ⟨?_, ?_, ?_⟩ <;> apply List.eq_nil_of_length_eq_zero <;> omega
 
 /-- a stage of the copy / flush path leaves the shootdown's bookkeeping alone -/
 theorem CpsSerRest.withC {g : CpSCfg} {e : CpSEnv} (h : CpsSerRest g e) (c' : Cp) (evs : List CpEv)
     (hcfg : Cp.CpsSameCfg c' e.s.c) (hcache : CpsCacheInv (e.withS (e.s.withC c' evs)))
-    (hnum : e.s.shoot = true → c'.numAck = e.s.c.numAck) : CpsSerRest g (e.withS (e.s.withC c' evs)) := by
+    (hnum : e.s.shoot = true → c'.numAck = e.s.c.numAck)
+    (hdrv : ∀ id, e.s.l1Inv = some id → c'.drvIn = []) : CpsSerRest g (e.withS (e.s.withC c' evs)) := by
   obtain ⟨c1, c2, c3, c4, c5⟩ := hcfg
-  refine ⟨hcache, ?_, c1.trans h.ncaches, h.kcu, h.kat, h.ktlb, h.nodrop, h.idle, ?_, ?_, h.book, h.nol⟩
+  refine ⟨hcache, ?_, c1.trans h.ncaches, h.kcu, h.kat, h.ktlb, h.nodrop, h.idle, ?_, ?_, h.book,
+    fun id hid => ⟨(h.linv id hid).1, hdrv id hid, (h.linv id hid).2.2⟩⟩
   · rw [← h.cfg]
     simp only [CpS.cfg, CpSEnv.withS_s, CpS.withC, c2, c3, c4, c5]
   · intro hs
@@ -1601,7 +1634,7 @@ theorem CpsSerRest.withC {g : CpSCfg} {e : CpSEnv} (h : CpsSerRest g e) (c' : Cp
 
 /-! ## 9. every stage of a pass, seen through the projection -/
 
-theorem CpsSerInv.handleCp {g : CpSCfg} (hr : g.Roomy) (e : CpSEnv) (h : CpsSerInv g e)
+theorem CpsSerInv.handleCp {g : CpSCfg} (hr : g.Roomy) (e : CpSEnv) (h : CpsSerInv g e) (hl1 : e.s.l1Inv = none)
     (hsf : ∀ m rest, e.s.c.drvIn = m :: rest → m.kind = .flush → e.s.shoot = false) :
     CpsSerInv g (e.withS e.s.handleCp.1) := by
   have hci := CpsCacheInv.handleCp e h.rest.cache
@@ -1614,43 +1647,31 @@ theorem CpsSerInv.handleCp {g : CpSCfg} (hr : g.Roomy) (e : CpSEnv) (h : CpsSerI
       simp [CpSEnv.proj, hd]
   · -- `processFlushReq`, ToCaches full
     have hs : e.s.shoot = false := hsf m rest hd hk
-    refine h.of_steps hr ?_ (h.rest.withC _ _ ⟨rfl, rfl, rfl, rfl, rfl⟩ hci (fun hs' => by simp [hs] at hs'))
-    refine .single_eq (CpTr.flushFault e.proj m _ k hf hdp (by simp [CpSEnv.proj, hs, hn]) hk h1
-      (by simp [CpSEnv.proj, hs]; exact h2)) ?_
-    simp [CpSEnv.proj, CpEnv.withS, Cp.flushAsk, CpS.withC, hs, CpSEnv.withS]
+    refine h.of_steps hr ?_ (h.rest.withC _ _ ⟨rfl, rfl, rfl, rfl, rfl⟩ hci (fun hs' => by simp [hs] at hs') (fun id hid => by rw [hl1] at hid; cases hid))
+    refine .single_eq (CpTr.flushFault e.proj m _ k hf hdp (by simp [CpSEnv.proj, hs, hl1, hn]) hk h1
+      (by simp [CpSEnv.proj, hs, hl1]; exact h2)) ?_
+    simp [CpSEnv.proj, CpEnv.withS, Cp.flushAsk, CpS.withC, hs, hl1, CpSEnv.withS]
   · -- `processFlushReq`, all caches asked
     have hs : e.s.shoot = false := hsf m rest hd hk
-    refine h.of_steps hr ?_ (h.rest.withC _ _ ⟨rfl, rfl, rfl, rfl, rfl⟩ hci (fun hs' => by simp [hs] at hs'))
-    refine .single_eq (CpTr.flushOk e.proj m _ hf hdp (by simp [CpSEnv.proj, hs, hn]) hk h1) ?_
-    simp [CpSEnv.proj, CpEnv.withS, Cp.flushAsk, CpS.withC, hs, CpSEnv.withS]
+    refine h.of_steps hr ?_ (h.rest.withC _ _ ⟨rfl, rfl, rfl, rfl, rfl⟩ hci (fun hs' => by simp [hs] at hs') (fun id hid => by rw [hl1] at hid; cases hid))
+    refine .single_eq (CpTr.flushOk e.proj m _ hf hdp (by simp [CpSEnv.proj, hs, hl1, hn]) hk h1) ?_
+    simp [CpSEnv.proj, CpEnv.withS, Cp.flushAsk, CpS.withC, hs, hl1, CpSEnv.withS]
   · -- `processFlushReq` without caches
     have hs : e.s.shoot = false := hsf m rest hd hk
-    refine h.of_steps hr ?_ (h.rest.withC _ _ ⟨rfl, rfl, rfl, rfl, rfl⟩ hci (fun hs' => by simp [hs] at hs'))
+    refine h.of_steps hr ?_ (h.rest.withC _ _ ⟨rfl, rfl, rfl, rfl, rfl⟩ hci (fun hs' => by simp [hs] at hs') (fun id hid => by rw [hl1] at hid; cases hid))
     have hroom : e.proj.s.drvOut.length < e.proj.s.capDrv := by
       have := List.length_filterMap_le SOut.ans? e.s.outEarlier
       simp only [CpSEnv.proj, List.length_append]
       unfold CpS.outLen at h2
       omega
-    refine .single_eq (CpTr.flushZero e.proj m _ true hf hdp (by simp [CpSEnv.proj, hs, hn]) hk h1 (by simp [hroom])) ?_
-    simp [CpSEnv.proj, CpEnv.withS, CpS.withC, hs, CpSEnv.withS]
+    refine .single_eq (CpTr.flushZero e.proj m _ true hf hdp (by simp [CpSEnv.proj, hs, hl1, hn]) hk h1 (by simp [hroom])) ?_
+    simp [CpSEnv.proj, CpEnv.withS, CpS.withC, hs, hl1, CpSEnv.withS]
   · -- `processMemCopyReq`
-    refine h.of_steps hr ?_ (h.rest.withC _ _ ⟨rfl, rfl, rfl, rfl, rfl⟩ hci (fun _ => rfl))
+    refine h.of_steps hr ?_ (h.rest.withC _ _ ⟨rfl, rfl, rfl, rfl, rfl⟩ hci (fun _ => rfl) (fun id hid => by rw [hl1] at hid; cases hid))
     have hnp : e.proj.s.numAck = 0 := by
       simp only [CpSEnv.proj]; split <;> simp [hn]
     refine .single_eq (CpTr.copy e.proj m _ true hf hdp hnp hk (by simp [CpSEnv.proj]; exact hb)) ?_
     simp [CpSEnv.proj, CpEnv.withS, Cp.copyFwd, CpS.withC, CpSEnv.withS]
-
-theorem CpsSerInv.handle {g : CpSCfg} (hr : g.Roomy) (e : CpSEnv) (h : CpsSerInv g e) : CpsSerInv g (e.withS e.s.handle.1) := by
-  rcases CpS.handle_split e.s with h0 | ⟨m, rest, hd, hsf, h0⟩ | ⟨id, rest, _, _, hl, _⟩
-  · rw [h0]; exact h
-  · rw [h0]
-    refine CpsSerInv.handleCp hr e h ?_
-    intro m' rest' hd' hk'
-    rw [hd] at hd'
-    cases hd'
-    exact hsf hk'
-  · have := h.rest.nol.2 (.launch id) (by rw [hl]; simp)
-    cases this
 
 theorem CpS.proj_room {e : CpSEnv} (h : e.s.outLen < e.s.c.capDrv) : e.proj.s.drvOut.length < e.proj.s.capDrv := by
   have := List.length_filterMap_le SOut.ans? e.s.outEarlier
@@ -1664,7 +1685,8 @@ theorem CpsSerInv.dmaRsp {g : CpSCfg} (hr : g.Roomy) (e : CpSEnv) (h : CpsSerInv
   · rw [h0]; exact h
   all_goals
     rw [h0] at hci ⊢
-    refine h.of_steps hr ?_ (h.rest.withC _ _ ⟨rfl, rfl, rfl, rfl, rfl⟩ hci (fun _ => rfl))
+    refine h.of_steps hr ?_ (h.rest.withC _ _ ⟨rfl, rfl, rfl, rfl, rfl⟩ hci (fun _ => rfl)
+      (fun id hid => (h.rest.linv id hid).2.1))
   · refine .single_eq (CpTr.done e.proj c rest o k true hf hd hl (by simp [CpS.proj_room hb])) ?_
     simp [CpSEnv.proj, CpEnv.withS, Cp.copyDone, CpS.withC, CpSEnv.withS]
   · refine .single_eq (CpTr.never e.proj c rest hf hd hH hD) ?_
@@ -1716,24 +1738,61 @@ theorem CpsSteps.cur_eq {a b : CpEnv} (cf : Option Nat) (h : a.s.numAck = 0)
     (heq : a.withS { a.s with curFlush := cf } = b) : CpsSteps a b :=
   heq ▸ CpsSteps.tail (.refl a) (.cur a cf h)
 
+/-- `processCacheFlushRsp` while a kernel-start invalidation is outstanding (no shootdown in process) -/
+theorem CpS.cacheRsp_inval (s : CpS) (hs : s.shoot = false) (id : Nat) (hl : s.l1Inv = some id) :
+    s.cacheRsp = (s, false) ∨
+    ∃ x rest, s.c.cacheIn = x :: rest ∧
+      s.cacheRsp = ({ s with c := { s.c with numAck := dec64 s.c.numAck, cacheIn := rest }, log := s.log ++ [.ackI] }, true) := by
+  unfold CpS.cacheRsp
+  by_cases hf : s.c.fault.isSome = true
+  · left; rw [if_pos hf]
+  · rw [if_neg hf]
+    cases hd : s.c.cacheIn with
+    | nil => left; rfl
+    | cons x rest =>
+      simp only
+      by_cases hg : s.c.numAck = 1 ∧ s.shoot = false ∧ ¬ s.outLen < s.c.capDrv
+      · left; rw [if_pos hg]
+      · right
+        rw [if_neg hg]
+        refine ⟨x, rest, rfl, ?_⟩
+        simp [hs, hl]
+
 theorem CpsSerInv.cacheRsp {g : CpSCfg} (hr : g.Roomy) (e : CpSEnv) (h : CpsSerInv g e) :
     CpsSerInv g (e.withS e.s.cacheRsp.1) := by
   have hci := CpsCacheInv.cacheRsp e h.rest.cache
   cases hs : e.s.shoot with
   | false =>
-    rcases CpS.cacheRsp_cases e.s hs h.rest.nol.1 with h0 | ⟨x, rest, n', hf, hd, hn, ⟨hz, h0⟩ | ⟨hz, hc, h0⟩ | ⟨hz, f, hc, hb, h0⟩⟩
+    cases hl1 : e.s.l1Inv with
+    | some id =>
+      rcases CpS.cacheRsp_inval e.s hs id hl1 with h0 | ⟨x, rest, hd, h0⟩
+      · rw [h0]; exact h
+      · rw [h0] at hci ⊢
+        refine h.of_steps hr (.of_eq ?_) ?_
+        · simp [CpSEnv.proj, CpSEnv.withS, hs, hl1]
+        · refine ⟨hci, h.rest.cfg, h.rest.ncaches, h.rest.kcu, h.rest.kat, h.rest.ktlb, h.rest.nodrop, h.rest.idle,
+            ?_, ?_, h.rest.book, h.rest.linv⟩
+          · intro hs'
+            have : e.s.shoot = true := hs'
+            rw [hs] at this; cases this
+          · intro hs'
+            have : e.s.shoot = true := hs'
+            rw [hs] at this; cases this
+    | none =>
+    rcases CpS.cacheRsp_cases e.s hs hl1 with h0 | ⟨x, rest, n', hf, hd, hn, ⟨hz, h0⟩ | ⟨hz, hc, h0⟩ | ⟨hz, f, hc, hb, h0⟩⟩
     · rw [h0]; exact h
     all_goals
       rw [h0] at hci ⊢
-      refine h.of_steps hr ?_ (h.rest.withC _ _ ⟨rfl, rfl, rfl, rfl, rfl⟩ hci (fun hs' => by simp [hs] at hs'))
-      have hdp : e.proj.s.cacheIn = x :: rest := by simp [CpSEnv.proj, hs, hd]
-      have hnp : 0 < e.proj.s.numAck → n' = e.proj.s.numAck - 1 := by simpa [CpSEnv.proj, hs] using hn
+      refine h.of_steps hr ?_ (h.rest.withC _ _ ⟨rfl, rfl, rfl, rfl, rfl⟩ hci (fun hs' => by simp [hs] at hs')
+        (fun id hid => by rw [hl1] at hid; cases hid))
+      have hdp : e.proj.s.cacheIn = x :: rest := by simp [CpSEnv.proj, hs, hl1, hd]
+      have hnp : 0 < e.proj.s.numAck → n' = e.proj.s.numAck - 1 := by simpa [CpSEnv.proj, hs, hl1] using hn
     · refine .single_eq (CpTr.ackDec e.proj x rest n' hf hdp hnp hz) ?_
-      simp [CpSEnv.proj, CpEnv.withS, CpS.withC, CpSEnv.withS, hs]
+      simp [CpSEnv.proj, CpEnv.withS, CpS.withC, CpSEnv.withS, hs, hl1]
     · refine .single_eq (CpTr.nilderef e.proj x rest n' hf hdp hnp hz hc) ?_
-      simp [CpSEnv.proj, CpEnv.withS, CpS.withC, CpSEnv.withS, hs]
+      simp [CpSEnv.proj, CpEnv.withS, CpS.withC, CpSEnv.withS, hs, hl1]
     · refine .single_eq (CpTr.ackFinal e.proj x rest n' f true hf hdp hnp hz hc (by simp [CpS.proj_room hb])) ?_
-      simp [CpSEnv.proj, CpEnv.withS, CpS.withC, CpSEnv.withS, hs]
+      simp [CpSEnv.proj, CpEnv.withS, CpS.withC, CpSEnv.withS, hs, hl1]
   | true =>
     cases hd : e.s.c.cacheIn with
     | nil =>
@@ -1741,6 +1800,7 @@ theorem CpsSerInv.cacheRsp {g : CpSCfg} (hr : g.Roomy) (e : CpSEnv) (h : CpsSerI
         unfold CpS.cacheRsp; simp [hd]
       rw [this]; exact h
     | cons x rest =>
+      have hl1 := h.rest.l1_none_of_shoot hs
       obtain ⟨ro1, ro2, ro3, ro4, ro5, ro6, ro7, ro8, ro9⟩ := h.rest.roomy hr
       have hcnt := h.rest.cache.count
       rw [hd] at hcnt
@@ -1764,7 +1824,7 @@ theorem CpsSerInv.cacheRsp {g : CpSCfg} (hr : g.Roomy) (e : CpSEnv) (h : CpsSerI
             rw [cps_length_take_of_le (by rw [hto]; simp; omega)]; simp
           have hdrop : ((List.range e.s.nTLB).drop (e.s.capTLB - e.s.tlbOut.length)).length = 0 :=
             cps_length_drop_of_le (by rw [hto]; simp; omega)
-          refine ⟨hci, h.rest.cfg, h.rest.ncaches, h.rest.kcu, h.rest.kat, ?_, ?_, ?_, ?_, ?_, h.rest.book, h.rest.nol⟩
+          refine ⟨hci, h.rest.cfg, h.rest.ncaches, h.rest.kcu, h.rest.kat, ?_, ?_, ?_, ?_, ?_, h.rest.book, cpsLinv_of_none hl1⟩
           · show e.s.numTLB + e.s.nTLB = (e.s.tlbOut ++ _).length + e.atTLB.length + e.s.tlbIn.length
             rw [List.length_append, hlen]; omega
           · obtain ⟨d1, d2, d3, d4⟩ := h.rest.nodrop
@@ -1781,7 +1841,7 @@ theorem CpsSerInv.cacheRsp {g : CpSCfg} (hr : g.Roomy) (e : CpSEnv) (h : CpsSerI
         refine h.of_steps hr (.of_eq ?_) ?_
         · simp [CpSEnv.proj, CpSEnv.withS, hs]
         · refine ⟨hci, h.rest.cfg, h.rest.ncaches, h.rest.kcu, h.rest.kat, h.rest.ktlb, h.rest.nodrop, ?_, ?_, ?_,
-            h.rest.book, h.rest.nol⟩
+            h.rest.book, cpsLinv_of_none hl1⟩
           · intro hs'; exact absurd hs (by simpa using hs')
           · intro _
             show (e.s.numCU = 0 ∨ _) ∧ (e.s.numAT = 0 ∨ _) ∧ (_ ∨ e.s.numTLB = 0)
@@ -1866,7 +1926,8 @@ theorem CpsSerInv.hShoot {g : CpSCfg} (hr : g.Roomy) (e : CpSEnv) (h : CpsSerInv
       exact hno (.inr (.inr (.inr (.inr (fun id rest heq => hc ⟨id, rest, heq⟩)))))
     obtain ⟨id, rest, hl⟩ := hl
     obtain ⟨ro1, ro2, ro3, ro4, ro5, ro6, ro7, ro8, ro9⟩ := h.rest.roomy hr
-    obtain ⟨f3, f4, f5⟩ := h.idle_of_zero hs f2
+    have hl1 : e.s.l1Inv = none := h.rest.l1_none_of_later (by rw [hl]; intro id' rest' hc; cases hc)
+    obtain ⟨f3, f4, f5⟩ := h.idle_of_zero hs hl1 f2
     obtain ⟨i1, i2, i3⟩ := h.rest.idle hs
     have hkc := h.rest.kcu
     have hco : e.s.cuOut = [] := List.eq_nil_of_length_eq_zero (by omega)
@@ -1876,9 +1937,9 @@ theorem CpsSerInv.hShoot {g : CpSCfg} (hr : g.Roomy) (e : CpSEnv) (h : CpsSerInv
       cps_length_drop_of_le (by rw [hco]; simp; omega)
     rw [CpS.hShoot_accept e.s h.nf hd id rest hl hs f2] at hci ⊢
     refine h.of_steps hr (.of_eq ?_) ?_
-    · simp [CpSEnv.proj, CpSEnv.withS, hs, hd, hl, f2, f3, f4, f5, SIn.req?, cps_filterMap_req_split, List.filterMap_cons]
+    · simp [CpSEnv.proj, CpSEnv.withS, hs, hl1, hd, hl, f2, f3, f4, f5, SIn.req?, cps_filterMap_req_split, List.filterMap_cons]
     · refine ⟨hci, h.rest.cfg, h.rest.ncaches, ?_, h.rest.kat, h.rest.ktlb, ?_, ?_, ?_, ?_, ?_,
-        ⟨h.rest.nol.1, fun x hx => h.rest.nol.2 x (by rw [hl]; exact List.mem_cons_of_mem _ ((List.dropWhile_sublist _).subset hx))⟩⟩
+        cpsLinv_of_none hl1⟩
       · show e.s.numCU + e.s.nCU = (e.s.cuOut ++ _).length + e.atCU.length + e.s.cuIn.length
         rw [List.length_append, hlen]; omega
       · obtain ⟨d1, d2, d3, d4⟩ := h.rest.nodrop
@@ -1936,6 +1997,7 @@ theorem CpsSerInv.rCU {g : CpSCfg} (hr : g.Roomy) (e : CpSEnv) (h : CpsSerInv g 
       | true => rfl
       | false => have := (h.rest.idle hs).1; omega
     have hph := h.rest.phase hs
+    have hl1 := h.rest.l1_none_of_shoot hs
     have hat : e.s.numAT = 0 := by omega
     have hak : e.s.c.numAck = 0 := by omega
     have htl : e.s.numTLB = 0 := by omega
@@ -1950,7 +2012,7 @@ theorem CpsSerInv.rCU {g : CpSCfg} (hr : g.Roomy) (e : CpSEnv) (h : CpsSerInv g 
       have hdrop : ((List.range e.s.nAT).drop (e.s.capAT - e.s.atOut.length)).length = 0 :=
         cps_length_drop_of_le (by rw [hao]; simp; omega)
       refine h.of_steps hr (.of_eq rfl) ?_
-      refine ⟨hci, h.rest.cfg, h.rest.ncaches, ?_, ?_, h.rest.ktlb, ?_, ?_, ?_, ?_, h.rest.book, h.rest.nol⟩
+      refine ⟨hci, h.rest.cfg, h.rest.ncaches, ?_, ?_, h.rest.ktlb, ?_, ?_, ?_, ?_, h.rest.book, cpsLinv_of_none hl1⟩
       · show e.s.numCU - 1 = e.s.cuOut.length + e.atCU.length + rest.length
         omega
       · show e.s.numAT + e.s.nAT = (e.s.atOut ++ _).length + e.atAT.length + e.s.atIn.length
@@ -1967,7 +2029,7 @@ theorem CpsSerInv.rCU {g : CpSCfg} (hr : g.Roomy) (e : CpSEnv) (h : CpsSerInv g 
     · rename_i hz
       rw [if_neg hz] at hci
       refine h.of_steps hr (.of_eq rfl) ?_
-      refine ⟨hci, h.rest.cfg, h.rest.ncaches, ?_, h.rest.kat, h.rest.ktlb, h.rest.nodrop, ?_, ?_, ?_, h.rest.book, h.rest.nol⟩
+      refine ⟨hci, h.rest.cfg, h.rest.ncaches, ?_, h.rest.kat, h.rest.ktlb, h.rest.nodrop, ?_, ?_, ?_, h.rest.book, cpsLinv_of_none hl1⟩
       · show e.s.numCU - 1 = e.s.cuOut.length + e.atCU.length + rest.length
         omega
       · intro hs'; exact absurd hs (by simpa using hs')
@@ -2015,6 +2077,7 @@ theorem CpsSerInv.rAT {g : CpSCfg} (hr : g.Roomy) (e : CpSEnv) (h : CpsSerInv g 
       | true => rfl
       | false => have := (h.rest.idle hs).2.1; omega
     have hph := h.rest.phase hs
+    have hl1 := h.rest.l1_none_of_shoot hs
     have hcu : e.s.numCU = 0 := by omega
     have hak : e.s.c.numAck = 0 := by omega
     have htl : e.s.numTLB = 0 := by omega
@@ -2028,7 +2091,7 @@ theorem CpsSerInv.rAT {g : CpSCfg} (hr : g.Roomy) (e : CpSEnv) (h : CpsSerInv g 
         cps_length_drop_of_le (by rw [hco]; simp; omega)
       refine h.of_steps hr (.of_eq ?_) ?_
       · simp [CpSEnv.proj, CpSEnv.withS, hs]
-      refine ⟨hci, h.rest.cfg, h.rest.ncaches, h.rest.kcu, ?_, h.rest.ktlb, ?_, ?_, ?_, ?_, h.rest.book, h.rest.nol⟩
+      refine ⟨hci, h.rest.cfg, h.rest.ncaches, h.rest.kcu, ?_, h.rest.ktlb, ?_, ?_, ?_, ?_, h.rest.book, cpsLinv_of_none hl1⟩
       · show e.s.numAT - 1 = e.s.atOut.length + e.atAT.length + rest.length
         omega
       · obtain ⟨d1, d2, d3, d4⟩ := h.rest.nodrop
@@ -2043,7 +2106,7 @@ theorem CpsSerInv.rAT {g : CpSCfg} (hr : g.Roomy) (e : CpSEnv) (h : CpsSerInv g 
     · rename_i hz
       rw [if_neg hz] at hci
       refine h.of_steps hr (.of_eq rfl) ?_
-      refine ⟨hci, h.rest.cfg, h.rest.ncaches, h.rest.kcu, ?_, h.rest.ktlb, h.rest.nodrop, ?_, ?_, ?_, h.rest.book, h.rest.nol⟩
+      refine ⟨hci, h.rest.cfg, h.rest.ncaches, h.rest.kcu, ?_, h.rest.ktlb, h.rest.nodrop, ?_, ?_, ?_, h.rest.book, cpsLinv_of_none hl1⟩
       · show e.s.numAT - 1 = e.s.atOut.length + e.atAT.length + rest.length
         omega
       · intro hs'; exact absurd hs (by simpa using hs')
@@ -2105,6 +2168,7 @@ theorem CpsSerInv.rTLB {g : CpSCfg} (hr : g.Roomy) (e : CpSEnv) (h : CpsSerInv g
       | true => rfl
       | false => have := (h.rest.idle hs).2.2; omega
     have hph := h.rest.phase hs
+    have hl1 := h.rest.l1_none_of_shoot hs
     have hcu : e.s.numCU = 0 := by omega
     have hat : e.s.numAT = 0 := by omega
     have hak : e.s.c.numAck = 0 := by omega
@@ -2124,7 +2188,7 @@ theorem CpsSerInv.rTLB {g : CpSCfg} (hr : g.Roomy) (e : CpSEnv) (h : CpsSerInv g
         rw [if_pos hroom] at hci
         refine h.of_steps hr (.of_eq ?_) ?_
         · simp [CpSEnv.proj, CpSEnv.withS, hs, hak, hco, hca, hcin, List.filterMap_append, cps_filterMap_ans_comp, List.filterMap_cons, SOut.ans?]
-        refine ⟨hci, h.rest.cfg, h.rest.ncaches, h.rest.kcu, h.rest.kat, ?_, h.rest.nodrop, ?_, ?_, ?_, ?_, h.rest.nol⟩
+        refine ⟨hci, h.rest.cfg, h.rest.ncaches, h.rest.kcu, h.rest.kat, ?_, h.rest.nodrop, ?_, ?_, ?_, ?_, cpsLinv_of_none hl1⟩
         · show e.s.numTLB - 1 = e.s.tlbOut.length + e.atTLB.length + rest.length
           omega
         · intro _
@@ -2141,7 +2205,7 @@ theorem CpsSerInv.rTLB {g : CpSCfg} (hr : g.Roomy) (e : CpSEnv) (h : CpsSerInv g
         rw [if_neg hroom] at hci
         refine h.of_steps hr (.of_eq ?_) ?_
         · simp [CpSEnv.proj, CpSEnv.withS, hs, hak, hco, hca, hcin]
-        refine ⟨hci, h.rest.cfg, h.rest.ncaches, h.rest.kcu, h.rest.kat, ?_, h.rest.nodrop, ?_, ?_, ?_, ?_, h.rest.nol⟩
+        refine ⟨hci, h.rest.cfg, h.rest.ncaches, h.rest.kcu, h.rest.kat, ?_, h.rest.nodrop, ?_, ?_, ?_, ?_, cpsLinv_of_none hl1⟩
         · show e.s.numTLB - 1 = e.s.tlbOut.length + e.atTLB.length + rest.length
           omega
         · intro _
@@ -2155,7 +2219,7 @@ theorem CpsSerInv.rTLB {g : CpSCfg} (hr : g.Roomy) (e : CpSEnv) (h : CpsSerInv g
     · rename_i hz
       rw [if_neg hz] at hci
       refine h.of_steps hr (.of_eq rfl) ?_
-      refine ⟨hci, h.rest.cfg, h.rest.ncaches, h.rest.kcu, h.rest.kat, ?_, h.rest.nodrop, ?_, ?_, ?_, ?_, h.rest.nol⟩
+      refine ⟨hci, h.rest.cfg, h.rest.ncaches, h.rest.kcu, h.rest.kat, ?_, h.rest.nodrop, ?_, ?_, ?_, ?_, cpsLinv_of_none hl1⟩
       · show e.s.numTLB - 1 = e.s.tlbOut.length + e.atTLB.length + rest.length
         omega
       · intro hs'; exact absurd hs (by simpa using hs')
@@ -2168,6 +2232,152 @@ theorem CpsSerInv.rTLB {g : CpSCfg} (hr : g.Roomy) (e : CpSEnv) (h : CpsSerInv g
       · show e.shootSent = e.s.later.countP SIn.isShoot + e.drained.countP SOut.isDone +
           e.s.outEarlier.countP SOut.isDone + e.s.dropDone + (if e.s.shoot = true then 1 else 0)
         rw [hs]; simp; omega
+
+/-! ### kernel launch requests: the third user of the counter -/
+
+/-- the loop of `invalidateCache` when ToCaches has room for all of it -/
+theorem CpS.foldl_invalidate_ok (id : Nat) : ∀ (ms : List Nat) (s : CpS), s.c.fault = none →
+    s.c.cacheOut.length + ms.length ≤ s.c.capCache →
+    ms.foldl (CpS.invalidate id) s =
+      { s with c := { s.c with cacheOut := s.c.cacheOut ++ ms.map (invBase + ·), numAck := s.c.numAck + ms.length },
+               log := s.log ++ ms.map (SEv.inval id) }
+  | [], s, _, _ => by simp
+  | i :: ms, s, hf, hc => by
+    have hroom : s.c.cacheOut.length < s.c.capCache := by
+      simp only [List.length_cons] at hc; omega
+    have e1 : CpS.invalidate id s i =
+        { s with c := { s.c with cacheOut := s.c.cacheOut ++ [invBase + i], numAck := s.c.numAck + 1 },
+                 log := s.log ++ [.inval id i] } := by
+      unfold CpS.invalidate; rw [hf]; simp [hroom]
+    simp only [List.foldl_cons]
+    rw [e1, CpS.foldl_invalidate_ok id ms
+      { s with c := { s.c with cacheOut := s.c.cacheOut ++ [invBase + i], numAck := s.c.numAck + 1 },
+               log := s.log ++ [.inval id i] } hf
+      (by simp only [List.length_append, List.length_cons, List.length_nil] at hc ⊢; omega)]
+    simp [Nat.add_assoc, Nat.add_comm 1]
+
+/-- `processLaunchKernelReq`: the request waits, or the counter is 0 and no shootdown is in process -/
+theorem CpS.launch_cases (s : CpS) (id : Nat) (rest : List SIn) :
+    s.launch id rest = (s, false) ∨
+    (s.c.numAck = 0 ∧ s.shoot = false ∧ s.launch id rest = s.launchGo id rest) := by
+  unfold CpS.launch
+  split
+  · left; rfl
+  · split
+    · left; rfl
+    · split
+      · left; rfl
+      · rename_i h1 h2
+        right
+        exact ⟨by omega, by simpa using h2, rfl⟩
+
+/-- `invalidateL1CachesBeforeKernel` with room in ToCaches: the kernel starts, or every L1S / L1V cache
+    is asked and the request waits -/
+theorem CpS.launchGo_cases (s : CpS) (id : Nat) (rest : List SIn) (hf : s.c.fault = none)
+    (hroom : s.c.cacheOut.length + s.ordInval.length ≤ s.c.capCache) :
+    s.launchGo id rest = (s.kstart id rest, true) ∨
+    (s.l1Inv ≠ some id ∧
+      s.launchGo id rest =
+        ({ s with c := { s.c with cacheOut := s.c.cacheOut ++ s.ordInval.map (invBase + ·),
+                                  numAck := s.c.numAck + s.ordInval.length },
+                  log := s.log ++ s.ordInval.map (SEv.inval id), l1Inv := some id }, true)) := by
+  unfold CpS.launchGo
+  split
+  · left; rfl
+  · rename_i hne
+    split
+    · left; rfl
+    · simp only
+      rw [CpS.foldl_invalidate_ok id s.ordInval s hf hroom]
+      rw [if_neg (by simp [hf])]
+      split
+      · rename_i hz
+        left
+        have hlen : s.ordInval.length = 0 := by
+          have : s.c.numAck + s.ordInval.length = 0 := hz
+          omega
+        have hnil : s.ordInval = [] := List.eq_nil_of_length_eq_zero hlen
+        simp [hnil]
+      · right; exact ⟨hne, rfl⟩
+
+/-- a kernel starts: its request leaves the head of the port -/
+theorem CpsSerInv.kstart {g : CpSCfg} (hr : g.Roomy) (e : CpSEnv) (h : CpsSerInv g e) (id : Nat) (rest : List SIn)
+    (hd : e.s.c.drvIn = []) (hl : e.s.later = .launch id :: rest) (hs : e.s.shoot = false) (hn : e.s.c.numAck = 0)
+    (hci : CpsCacheInv (e.withS (e.s.kstart id rest))) : CpsSerInv g (e.withS (e.s.kstart id rest)) := by
+  have hcnt := h.rest.cache.count
+  obtain ⟨_, _, d3, _⟩ := h.rest.nodrop
+  have hco : e.s.c.cacheOut = [] := List.eq_nil_of_length_eq_zero (by omega)
+  have hca : e.atCaches = [] := List.eq_nil_of_length_eq_zero (by omega)
+  have hcin : e.s.c.cacheIn = [] := List.eq_nil_of_length_eq_zero (by omega)
+  refine h.of_steps hr (.of_eq ?_) ?_
+  · simp [CpSEnv.proj, CpSEnv.withS, CpS.kstart, hs, hd, hl, hn, hco, hca, hcin, SIn.req?, cps_filterMap_req_split,
+      List.filterMap_cons]
+  · refine ⟨hci, h.rest.cfg, h.rest.ncaches, h.rest.kcu, h.rest.kat, h.rest.ktlb, h.rest.nodrop, h.rest.idle,
+      h.rest.phase, h.rest.live, ?_, cpsLinv_of_none rfl⟩
+    have hb := h.rest.book
+    rw [hl] at hb
+    simp only [List.countP_cons, SIn.isShoot, Bool.false_eq_true, if_false] at hb
+    show e.shootSent = (rest.dropWhile SIn.isReq).countP SIn.isShoot + e.drained.countP SOut.isDone +
+      e.s.outEarlier.countP SOut.isDone + e.s.dropDone + (if e.s.shoot = true then 1 else 0)
+    rw [cps_countP_shoot_dropWhile]
+    omega
+
+/-- `processLaunchKernelReq` on the launch request at the head of the port -/
+theorem CpsSerInv.launch {g : CpSCfg} (hr : g.Roomy) (e : CpSEnv) (h : CpsSerInv g e) (id : Nat) (rest : List SIn)
+    (hd : e.s.c.drvIn = []) (hl : e.s.later = .launch id :: rest) : CpsSerInv g (e.withS (e.s.launch id rest).1) := by
+  have hci := CpsCacheInv.launch e h.rest.cache h.nf id rest
+  rcases CpS.launch_cases e.s id rest with h0 | ⟨hn, hs, h0⟩
+  · rw [h0]; exact h
+  rw [h0] at hci ⊢
+  have hcnt := h.rest.cache.count
+  obtain ⟨_, _, d3, _⟩ := h.rest.nodrop
+  have hco : e.s.c.cacheOut = [] := List.eq_nil_of_length_eq_zero (by omega)
+  have hca : e.atCaches = [] := List.eq_nil_of_length_eq_zero (by omega)
+  have hcin : e.s.c.cacheIn = [] := List.eq_nil_of_length_eq_zero (by omega)
+  obtain ⟨_, _, _, _, _, _, _, ro8, ro9⟩ := h.rest.roomy hr
+  have hlen : e.s.ordInval.length ≤ e.s.c.capCache := by
+    have : e.s.ordInval.length ≤ e.s.ordReset.length := by
+      simp only [CpS.ordInval, CpS.ordReset, List.length_append, cps_seg_length]; omega
+    omega
+  rcases CpS.launchGo_cases e.s id rest h.nf (by rw [hco]; simpa using hlen) with h1 | ⟨hne, h1⟩
+  · rw [h1] at hci ⊢
+    exact h.kstart hr e id rest hd hl hs hn hci
+  · rw [h1] at hci ⊢
+    have hl1 : e.s.l1Inv = none := by
+      cases hq : e.s.l1Inv with
+      | none => rfl
+      | some id' =>
+        obtain ⟨rest', hr'⟩ := (h.rest.linv id' hq).2.2
+        rw [hl] at hr'
+        cases hr'
+        exact absurd hq hne
+    refine h.of_steps hr (.of_eq ?_) ?_
+    · simp [CpSEnv.proj, CpSEnv.withS, hs, hl1, hn, hco, hca, hcin]
+    · refine ⟨hci, h.rest.cfg, h.rest.ncaches, h.rest.kcu, h.rest.kat, h.rest.ktlb, h.rest.nodrop, h.rest.idle,
+        ?_, ?_, h.rest.book, ?_⟩
+      · intro hs'
+        have : e.s.shoot = true := hs'
+        rw [hs] at this; cases this
+      · intro hs'
+        have : e.s.shoot = true := hs'
+        rw [hs] at this; cases this
+      · intro id' hid
+        have : some id = some id' := hid
+        cases this
+        exact ⟨hs, hd, rest, hl⟩
+
+theorem CpsSerInv.handle {g : CpSCfg} (hr : g.Roomy) (e : CpSEnv) (h : CpsSerInv g e) : CpsSerInv g (e.withS e.s.handle.1) := by
+  rcases CpS.handle_split e.s with h0 | ⟨m, rest, hd, hsf, h0⟩ | ⟨id, rest, _, _, hl, _⟩
+  · rw [h0]; exact h
+  · rw [h0]
+    refine CpsSerInv.handleCp hr e h (h.rest.l1_none_of_drvIn m rest hd) ?_
+    intro m' rest' hd' hk'
+    rw [hd] at hd'
+    cases hd'
+    exact hsf hk'
+  · rename_i hd h0
+    rw [h0]
+    exact CpsSerInv.launch hr e h id rest hd hl
 
 theorem CpsSerInv.stages {g : CpSCfg} (hr : g.Roomy) : CpsStagePres (CpsSerInv g) :=
   ⟨CpsSerInv.handle hr, CpsSerInv.dmaRsp hr, CpsSerInv.hShoot hr, CpsSerInv.rCU hr, CpsSerInv.rAT hr, CpsSerInv.cacheRsp hr, CpsSerInv.rTLB hr⟩
@@ -2208,7 +2418,7 @@ theorem cps_take_drop_two (A : List SOut) (B : List CpMsg) (k : Nat) :
 theorem cps_countP_le_append {α} (p : α → Bool) (l l2 : List α) : l.countP p ≤ (l ++ l2).countP p := by
   rw [List.countP_append]; omega
 
-theorem CpsSerInv.step {g : CpSCfg} (hr : g.Roomy) (e : CpSEnv) (op : SOp) (h : CpsSerInv g e) (hok : e.okOp op = true) :
+theorem CpsSerInv.step {g : CpSCfg} (hr : g.Roomy) (e : CpSEnv) (op : SOp) (h : CpsSerInv g e) :
     CpsSerInv g (e.step op).1 := by
   have hci := CpsCacheInv.step e op h.rest.cache
   have hR := h.rest
@@ -2228,13 +2438,24 @@ theorem CpsSerInv.step {g : CpSCfg} (hr : g.Roomy) (e : CpSEnv) (op : SOp) (h : 
         rw [List.countP_append]
         simp [SIn.isShoot]
         omega
-      · refine ⟨hR.nol.1, ?_⟩
-        intro x hx
-        rcases List.mem_append.1 hx with hx | hx
-        · exact hR.nol.2 x hx
-        · simp only [List.mem_singleton] at hx; subst hx; rfl
+      · exact hR.linv.append [.shoot e.shootSent] rfl rfl rfl rfl
     · exact h
-  | launch => simp [CpSEnv.okOp] at hok
+  | launch =>
+    simp only [CpSEnv.step] at hci ⊢
+    split
+    · rename_i hlt
+      rw [if_pos hlt] at hci
+      refine h.of_steps hr (.of_eq ?_) ?_
+      · simp [CpSEnv.proj, List.filterMap_append, List.filterMap_cons, SIn.req?]
+      refine ⟨hci, hR.cfg, hR.ncaches, hR.kcu, hR.kat, hR.ktlb, hR.nodrop, hR.idle, hR.phase, hR.live, ?_,
+        hR.linv.append [.launch e.launchSent] rfl rfl rfl rfl⟩
+      have hb := hR.book
+      show e.shootSent = (e.s.later ++ [SIn.launch e.launchSent]).countP SIn.isShoot + e.drained.countP SOut.isDone +
+        e.s.outEarlier.countP SOut.isDone + e.s.dropDone + (if e.s.shoot = true then 1 else 0)
+      rw [List.countP_append]
+      simp [SIn.isShoot]
+      omega
+    · exact h
   | kdone =>
     simp only [CpSEnv.step] at hci ⊢
     split
@@ -2242,19 +2463,19 @@ theorem CpsSerInv.step {g : CpSCfg} (hr : g.Roomy) (e : CpSEnv) (op : SOp) (h : 
     · rename_i hb
       rw [if_neg hb] at hci
       refine h.of_steps hr (.of_eq rfl) ?_
-      exact ⟨hci, hR.cfg, hR.ncaches, hR.kcu, hR.kat, hR.ktlb, hR.nodrop, hR.idle, hR.phase, hR.live, hR.book, hR.nol⟩
+      exact ⟨hci, hR.cfg, hR.ncaches, hR.kcu, hR.kat, hR.ktlb, hR.nodrop, hR.idle, hR.phase, hR.live, hR.book, hR.linv⟩
   | take c k =>
     have hl := cps_length_take_add_drop k (e.s.out c)
     cases c <;> simp only [CpS.out] at hl <;> refine h.of_steps hr (.of_eq rfl) ?_
-    · refine ⟨hci, hR.cfg, hR.ncaches, ?_, hR.kat, hR.ktlb, hR.nodrop, hR.idle, hR.phase, hR.live, hR.book, hR.nol⟩
+    · refine ⟨hci, hR.cfg, hR.ncaches, ?_, hR.kat, hR.ktlb, hR.nodrop, hR.idle, hR.phase, hR.live, hR.book, hR.linv⟩
       have := hR.kcu
       show e.s.numCU = (e.s.cuOut.drop k).length + (e.atCU ++ e.s.cuOut.take k).length + e.s.cuIn.length
       rw [List.length_append]; omega
-    · refine ⟨hci, hR.cfg, hR.ncaches, hR.kcu, ?_, hR.ktlb, hR.nodrop, hR.idle, hR.phase, hR.live, hR.book, hR.nol⟩
+    · refine ⟨hci, hR.cfg, hR.ncaches, hR.kcu, ?_, hR.ktlb, hR.nodrop, hR.idle, hR.phase, hR.live, hR.book, hR.linv⟩
       have := hR.kat
       show e.s.numAT = (e.s.atOut.drop k).length + (e.atAT ++ e.s.atOut.take k).length + e.s.atIn.length
       rw [List.length_append]; omega
-    · refine ⟨hci, hR.cfg, hR.ncaches, hR.kcu, hR.kat, ?_, hR.nodrop, hR.idle, hR.phase, hR.live, hR.book, hR.nol⟩
+    · refine ⟨hci, hR.cfg, hR.ncaches, hR.kcu, hR.kat, ?_, hR.nodrop, hR.idle, hR.phase, hR.live, hR.book, hR.linv⟩
       have := hR.ktlb
       show e.s.numTLB = (e.s.tlbOut.drop k).length + (e.atTLB ++ e.s.tlbOut.take k).length + e.s.tlbIn.length
       rw [List.length_append]; omega
@@ -2277,15 +2498,15 @@ theorem CpsSerInv.step {g : CpSCfg} (hr : g.Roomy) (e : CpSEnv) (op : SOp) (h : 
             ((e.pend c).eraseIdx (j % (e.pend c).length))) := by
           cases c <;> exact h.rest.cache.of_eq rfl rfl rfl rfl rfl rfl
         cases c <;> simp only [CpSEnv.pend] at hlt hpos <;> refine h.of_steps hr (.of_eq rfl) ?_
-        · refine ⟨hci', hR.cfg, hR.ncaches, ?_, hR.kat, hR.ktlb, hR.nodrop, hR.idle, hR.phase, hR.live, hR.book, hR.nol⟩
+        · refine ⟨hci', hR.cfg, hR.ncaches, ?_, hR.kat, hR.ktlb, hR.nodrop, hR.idle, hR.phase, hR.live, hR.book, hR.linv⟩
           have := hR.kcu
           show e.s.numCU = e.s.cuOut.length + (e.atCU.eraseIdx (j % e.atCU.length)).length + (e.s.cuIn ++ [_]).length
           rw [List.length_append, List.length_eraseIdx, if_pos hlt]; simp; omega
-        · refine ⟨hci', hR.cfg, hR.ncaches, hR.kcu, ?_, hR.ktlb, hR.nodrop, hR.idle, hR.phase, hR.live, hR.book, hR.nol⟩
+        · refine ⟨hci', hR.cfg, hR.ncaches, hR.kcu, ?_, hR.ktlb, hR.nodrop, hR.idle, hR.phase, hR.live, hR.book, hR.linv⟩
           have := hR.kat
           show e.s.numAT = e.s.atOut.length + (e.atAT.eraseIdx (j % e.atAT.length)).length + (e.s.atIn ++ [_]).length
           rw [List.length_append, List.length_eraseIdx, if_pos hlt]; simp; omega
-        · refine ⟨hci', hR.cfg, hR.ncaches, hR.kcu, hR.kat, ?_, hR.nodrop, hR.idle, hR.phase, hR.live, hR.book, hR.nol⟩
+        · refine ⟨hci', hR.cfg, hR.ncaches, hR.kcu, hR.kat, ?_, hR.nodrop, hR.idle, hR.phase, hR.live, hR.book, hR.linv⟩
           have := hR.ktlb
           show e.s.numTLB = e.s.tlbOut.length + (e.atTLB.eraseIdx (j % e.atTLB.length)).length + (e.s.tlbIn ++ [_]).length
           rw [List.length_append, List.length_eraseIdx, if_pos hlt]; simp; omega
@@ -2308,12 +2529,14 @@ theorem CpsSerInv.step {g : CpSCfg} (hr : g.Roomy) (e : CpSEnv) (op : SOp) (h : 
           refine h.of_steps hr (.single_eq (CpTr.req e.proj k hlt') ?_) ?_
           · simp [CpSEnv.proj, hle]
           · exact ⟨hci, hR.cfg, hR.ncaches, hR.kcu, hR.kat, hR.ktlb, hR.nodrop, hR.idle, hR.phase, hR.live,
-              by simpa [hle] using hR.book, ⟨hR.nol.1, by simp [hle]⟩⟩
+              by simpa [hle] using hR.book,
+              cpsLinv_of_none (hR.l1_none_of_later (by rw [hle]; intro id' rest' hc; cases hc))⟩
         | cons a l =>
           simp only [hle, List.isEmpty_cons, Bool.false_eq_true, if_false] at hci ⊢
           refine h.of_steps hr (.single_eq (CpTr.req e.proj k hlt') ?_) ?_
           · cases a <;> simp [CpSEnv.proj, hle, List.filterMap_append, List.filterMap_cons, SIn.req?]
-          · refine ⟨hci, hR.cfg, hR.ncaches, hR.kcu, hR.kat, hR.ktlb, hR.nodrop, hR.idle, hR.phase, hR.live, ?_, ⟨hR.nol.1, ?_⟩⟩
+          · refine ⟨hci, hR.cfg, hR.ncaches, hR.kcu, hR.kat, hR.ktlb, hR.nodrop, hR.idle, hR.phase, hR.live, ?_,
+              hR.linv.append [.req ⟨e.sent.length, k⟩] rfl rfl rfl (by rw [hle])⟩
             · have hb := hR.book
               rw [hle] at hb
               show e.shootSent = (a :: l ++ [SIn.req ⟨e.sent.length, k⟩]).countP SIn.isShoot + e.drained.countP SOut.isDone +
@@ -2321,25 +2544,26 @@ theorem CpsSerInv.step {g : CpSCfg} (hr : g.Roomy) (e : CpSEnv) (op : SOp) (h : 
               rw [List.countP_append]
               simp only [List.countP_cons, List.countP_nil, SIn.isShoot, Bool.false_eq_true, if_false] at hb ⊢
               omega
-            · intro x hx
-              rcases List.mem_append.1 hx with hx | hx
-              · exact hR.nol.2 x (by rw [hle]; exact hx)
-              · simp only [List.mem_singleton] at hx; subst hx; rfl
       · exact h
     | takeDma k =>
       refine h.of_steps hr (.single_eq (CpTr.takeDma e.proj k) ?_) ?_
       · simp [CpSEnv.proj, CpSEnv.step]
-      · exact ⟨hci, hR.cfg, hR.ncaches, hR.kcu, hR.kat, hR.ktlb, hR.nodrop, hR.idle, hR.phase, hR.live, hR.book, hR.nol⟩
+      · exact ⟨hci, hR.cfg, hR.ncaches, hR.kcu, hR.kat, hR.ktlb, hR.nodrop, hR.idle, hR.phase, hR.live, hR.book, hR.linv⟩
     | takeCache k =>
       have hrest : CpsSerRest g (e.step (.cp (.takeCache k))).1 :=
-        ⟨hci, hR.cfg, hR.ncaches, hR.kcu, hR.kat, hR.ktlb, hR.nodrop, hR.idle, hR.phase, hR.live, hR.book, hR.nol⟩
+        ⟨hci, hR.cfg, hR.ncaches, hR.kcu, hR.kat, hR.ktlb, hR.nodrop, hR.idle, hR.phase, hR.live, hR.book, hR.linv⟩
       cases hs : e.s.shoot with
       | true =>
         refine h.of_steps hr (.of_eq ?_) hrest
         simp [CpSEnv.proj, CpSEnv.step, hs]
       | false =>
-        refine h.of_steps hr (.single_eq (CpTr.takeCache e.proj k) ?_) hrest
-        simp [CpSEnv.proj, CpSEnv.step, hs]
+        cases hl1 : e.s.l1Inv with
+        | some id =>
+          refine h.of_steps hr (.of_eq ?_) hrest
+          simp [CpSEnv.proj, CpSEnv.step, hs, hl1]
+        | none =>
+          refine h.of_steps hr (.single_eq (CpTr.takeCache e.proj k) ?_) hrest
+          simp [CpSEnv.proj, CpSEnv.step, hs, hl1]
     | takeDrv k =>
       obtain ⟨t1, t2⟩ := cps_take_drop_two e.s.outEarlier e.s.c.drvOut k
       refine h.of_steps hr (.single_eq (CpTr.takeDrv e.proj
@@ -2356,7 +2580,7 @@ theorem CpsSerInv.step {g : CpSCfg} (hr : g.Roomy) (e : CpSEnv) (op : SOp) (h : 
             (e.s.outEarlier.drop k).countP SOut.isDone + e.s.dropDone + (if e.s.shoot = true then 1 else 0)
           rw [List.countP_append, List.countP_append, cps_countP_done_map_ans]
           omega
-        · exact hR.nol
+        · exact hR.linv
     | ack j =>
       simp only [CpSEnv.step] at hci ⊢
       split
@@ -2379,12 +2603,17 @@ theorem CpsSerInv.step {g : CpSCfg} (hr : g.Roomy) (e : CpSEnv) (op : SOp) (h : 
             omega
           rcases Bool.eq_false_or_eq_true e.s.shoot with hs | hs
           · refine h.of_steps hr (.of_eq ?_)
-              ⟨hci, hR.cfg, hR.ncaches, hR.kcu, hR.kat, hR.ktlb, hR.nodrop, hR.idle, hR.phase, hR.live, hR.book, hR.nol⟩
+              ⟨hci, hR.cfg, hR.ncaches, hR.kcu, hR.kat, hR.ktlb, hR.nodrop, hR.idle, hR.phase, hR.live, hR.book, hR.linv⟩
             simp [CpSEnv.proj, hs]
-          · refine h.of_steps hr (.single_eq (CpTr.ackEnv e.proj (j % e.atCaches.length)
-              (e.atCaches.getD (j % e.atCaches.length) 0) (by simpa [CpSEnv.proj, hs] using hlt)) ?_)
-              ⟨hci, hR.cfg, hR.ncaches, hR.kcu, hR.kat, hR.ktlb, hR.nodrop, hR.idle, hR.phase, hR.live, hR.book, hR.nol⟩
-            simp [CpSEnv.proj, hs]
+          · rcases Option.eq_none_or_eq_some e.s.l1Inv with hl1 | ⟨id, hl1⟩
+            rotate_left
+            · refine h.of_steps hr (.of_eq ?_)
+                ⟨hci, hR.cfg, hR.ncaches, hR.kcu, hR.kat, hR.ktlb, hR.nodrop, hR.idle, hR.phase, hR.live, hR.book, hR.linv⟩
+              simp [CpSEnv.proj, hs, hl1]
+            · refine h.of_steps hr (.single_eq (CpTr.ackEnv e.proj (j % e.atCaches.length)
+                (e.atCaches.getD (j % e.atCaches.length) 0) (by simpa [CpSEnv.proj, hs, hl1] using hlt)) ?_)
+                ⟨hci, hR.cfg, hR.ncaches, hR.kcu, hR.kat, hR.ktlb, hR.nodrop, hR.idle, hR.phase, hR.live, hR.book, hR.linv⟩
+              simp [CpSEnv.proj, hs, hl1]
     | rsp j =>
       simp only [CpSEnv.step] at hci ⊢
       split
@@ -2397,7 +2626,7 @@ theorem CpsSerInv.step {g : CpSCfg} (hr : g.Roomy) (e : CpSEnv) (op : SOp) (h : 
             refine h.of_steps hr (.single_eq (CpTr.rspEnv e.proj _ c hc) ?_) ?_
             · simp [CpSEnv.proj]
             · exact ⟨h.rest.cache.of_eq rfl rfl rfl rfl rfl rfl, hR.cfg, hR.ncaches, hR.kcu, hR.kat, hR.ktlb, hR.nodrop,
-                hR.idle, hR.phase, hR.live, hR.book, hR.nol⟩
+                hR.idle, hR.phase, hR.live, hR.book, hR.linv⟩
 
 theorem CpsSerInv.init (g : CpSCfg) : CpsSerInv g (CpSEnv.init g) := by
   have hp : (CpSEnv.init g).proj = CpEnv.init g.nCaches g.capIn g.capDrv g.capDma g.capCache := rfl
@@ -2408,19 +2637,18 @@ theorem CpsSerInv.init (g : CpSCfg) : CpsSerInv g (CpSEnv.init g) := by
   · intro ev hev
     rw [hp] at hev
     cases hev
-  · exact ⟨rfl, fun x hx => by cases hx⟩
+  · exact cpsLinv_of_none rfl
 
-theorem CpsSerInv.run {g : CpSCfg} (hr : g.Roomy) (ops : List SOp) (e : CpSEnv) (h : CpsSerInv g e)
-    (hs : e.serial ops = true) : CpsSerInv g (e.run ops) := by
+theorem CpsSerInv.run {g : CpSCfg} (hr : g.Roomy) (ops : List SOp) (e : CpSEnv) (h : CpsSerInv g e) :
+    CpsSerInv g (e.run ops) := by
   induction ops generalizing e with
   | nil => exact h
-  | cons op ops ih =>
-    simp only [CpSEnv.serial, Bool.and_eq_true] at hs
-    exact ih _ (h.step hr e op hs.1) hs.2
+  | cons op ops ih => exact ih _ (h.step hr e op)
 
-theorem cps_reach_serInv (g : CpSCfg) (hr : g.Roomy) (ops : List SOp) (hs : (CpSEnv.init g).serial ops = true) :
-    CpsSerInv g (reachCps g ops) :=
-  (CpsSerInv.init g).run hr ops _ hs
+/-- the invariant holds after EVERY list of environment moves — kernel launch requests included since the
+    repair of finding `C11-cp-launch-in-shootdown` (`processLaunchKernelReq` waits while `shootDownInProcess`) -/
+theorem cps_reach_serInv (g : CpSCfg) (hr : g.Roomy) (ops : List SOp) : CpsSerInv g (reachCps g ops) :=
+  (CpsSerInv.init g).run hr ops _
 
 /-! ### no `Send` of the copy / flush path fails silently (all runs) -/
 
@@ -2439,6 +2667,19 @@ theorem CpS.foldl_invalidate_clog (id : Nat) : ∀ (ms : List Nat) (s : CpS),
     simp only [List.foldl_cons]
     rw [CpS.foldl_invalidate_clog id ms, CpS.invalidate_clog]
 
+theorem CpS.launchGo_clog (s : CpS) (id : Nat) (rest : List SIn) : (s.launchGo id rest).1.c.log = s.c.log := by
+  unfold CpS.launchGo
+  split
+  · rfl
+  · split
+    · rfl
+    · simp only
+      split
+      · exact CpS.foldl_invalidate_clog id _ s
+      · split
+        · exact CpS.foldl_invalidate_clog id _ s
+        · exact CpS.foldl_invalidate_clog id _ s
+
 theorem CpS.launch_clog (s : CpS) (id : Nat) (rest : List SIn) : (s.launch id rest).1.c.log = s.c.log := by
   unfold CpS.launch
   split
@@ -2447,14 +2688,7 @@ theorem CpS.launch_clog (s : CpS) (id : Nat) (rest : List SIn) : (s.launch id re
     · rfl
     · split
       · rfl
-      · split
-        · rfl
-        · simp only
-          split
-          · exact CpS.foldl_invalidate_clog id _ s
-          · split
-            · exact CpS.foldl_invalidate_clog id _ s
-            · exact CpS.foldl_invalidate_clog id _ s
+      · exact CpS.launchGo_clog s id rest
 
 theorem cps_nodrop_handle (e : CpSEnv) (h : NoDrop e.s.c) : NoDrop (e.withS e.s.handle.1).s.c := by
   rcases CpS.handle_split e.s with h0 | ⟨m, rest, _, _, h0⟩ | ⟨id, rest, _, _, _, h0⟩
@@ -2611,7 +2845,7 @@ theorem cps_reach_nodrop (g : CpSCfg) (ops : List SOp) : NoDrop (reachCps g ops)
   · intro ev hev
     cases hev
 
-/-- serialised runs: in a quiet state everything the driver port accepted has been answered once -/
+/-- in a quiet state everything the driver port accepted has been answered once -/
 theorem CpsSerInv.quiet_answered {g : CpSCfg} {e : CpSEnv} (hr : g.Roomy) (h : CpsSerInv g e) (hnd : NoDrop e.s.c)
     (hq : e.quiet) (hdd : e.s.dropDone = 0) : e.allAnswered := by
   obtain ⟨q1, q2, q3, q4, q5, q6, q7, q8, q9, q10, q11, q12, q13, q14, q15, q16, q17, q18, q19⟩ := hq
@@ -2641,21 +2875,17 @@ theorem CpsSerInv.quiet_answered {g : CpSCfg} {e : CpSEnv} (hr : g.Roomy) (h : C
     simp at hb
     exact hb.symm
 
-/-! ## 10. launch-free runs, the third user of the counter, the code before repair 0728adcb -/
+/-! ## 11. launch-free runs, the third user of the counter, the code before the repairs -/
 
 /-- a list of moves that delivers no kernel launch request -/
 def cpsNoLaunch (ops : List SOp) : Prop := ∀ op ∈ ops, op ≠ SOp.launch
 
-theorem cps_serial_of_noLaunch : ∀ (ops : List SOp) (e : CpSEnv), cpsNoLaunch ops → e.serial ops = true
-  | [], _, _ => rfl
-  | op :: rest, e, h => by
-    simp only [CpSEnv.serial, Bool.and_eq_true]
-    refine ⟨?_, cps_serial_of_noLaunch rest _ (fun o ho => h o (List.mem_cons_of_mem _ ho))⟩
-    have := h op (List.mem_cons_self ..)
-    cases op <;> first | rfl | exact absurd rfl this
-
 /-- state of the code BEFORE repair 0728adcb after a list of environment moves -/
 def reachCpsOld (g : CpSCfg) (ops : List SOp) : CpSEnv := (CpSEnv.init g).runOld ops
+
+/-- state of the code before the repair of finding `C11-cp-launch-in-shootdown` (`processLaunchKernelReq`
+    without the `shootDownInProcess` guard) after a list of environment moves -/
+def reachCpsOldL (g : CpSCfg) (ops : List SOp) : CpSEnv := (CpSEnv.init g).runOldL ops
 
 /-- **while `numCacheACK > 0` nothing is taken from the driver port** — neither a copy, nor a flush
     request, nor a kernel launch request (`cpMiddleware.Handle`), nor a shootdown command
